@@ -50,7 +50,8 @@ TABLE = {
         ('DC-INVARIANT', 'reached only when checked_sub(offset, last_address) is None, i.e. last_address > 0, so a region of '
                          'non-zero size was pushed before (P1 pairs the push with the accumulator)', 'P1', 'Option::unwrap(slice::last)'),
     'semantic::type_definition::vftable::build_type|Iterator::sum(Iterator::map(slice::iter(deref(…)),closure))':
-        ('DC-COUNTER', 'sum of pointer_size over slots that were each allocated as a Function value; bounded by memory', None, 'Iterator::sum(Iterator::map)'),
+        ('DC-COUNTER', 'sum of pointer_size over slots that were each allocated as a Function value; bounded by memory', None,
+         ('Iterator::sum(Iterator::map)', 'Overflow:Add(usize,Option::unwrap)')),   # or the same total kept as a running `size += ..`
     'semantic::type_definition::vftable::build_type::{closure}|Option::unwrap(Region::size(arg2,upvar0))':
         ('DC-INVARIANT', 'vftable regions are built by function_to_region only, whose type is Type::Function; its size is '
                          'Some(pointer_size) unconditionally', 'function_to_region-makes-Function', 'Option::unwrap(Region::size)'),
